@@ -62,7 +62,7 @@ Seeds == {
   (* an untyped array first and an array of objects later in one allOf *)
   Sch([type |-> "array", minItems |-> 1,
        allOf |-> << Sch([type |-> "array",
-                         items |-> Sch([type |-> "object", properties |-> << <<"a", Ty("string")>> >>])]) >>]),
+                         items |-> Sch([type |-> "object", properties |-> << <<"a", Ty("integer")>> >>])]) >>]),
   (* numeric types meeting in compositions (which member builds the value?) *)
   Sch([type |-> "number", allOf |-> << Ty("integer") >>,
        anyOf |-> << Ty("integer"), Ty("number") >>]),
